@@ -434,6 +434,13 @@ func (p *Pool) worker() {
 			<-ch
 			loser.Close()
 		}
+		if final.res != "unsat" && ob.Script2 != "" && !ob.UsedTol {
+			// exact form not proved: decide the toleranced form instead
+			ob.UsedTol = true
+			ob.Script, ob.Vars = ob.Script2, ob.Vars2
+			p.ch <- ob
+			continue
+		}
 		ob.Result, ob.Model = final.res, final.model
 		ob.Solver = final.who.kind.Name
 		ob.Ms = time.Since(t0).Milliseconds()
